@@ -386,15 +386,80 @@ def _report(ctx, viol, case):
         if n < 3:
             c = dict(case)
             c['key'] = key
-            ctx.check(False, key, f'{what}; params={case.get("params")} scene sources={case["scene"]["sources"]}', c)
+            ctx.check(False, key, f'{what}; params={case.get("params")} scene sources={case["scene"].get("sources", case["scene"])}', c)
 
 
 def _pkey(params):
     return tuple(sorted((k, repr(v)) for k, v in params.items()))
 
 
+def handmade_scenes():
+    """Small exact scenes with thin / diagonal structures that smooth Gaussian blends never contain:
+    (name, data, label array)."""
+    out = []
+    # two plateaus joined by a valley, plus a 4-pixel diagonal tail hanging off the second plateau
+    # through one low connector pixel; an unrelated segment
+    data = np.zeros((14, 20))
+    segm = np.zeros((14, 20), dtype=int)
+    data[2:6, 1:11] = 1.0
+    data[2:6, 1:5] = 10.0
+    data[2:6, 7:11] = 9.0
+    segm[2:6, 1:11] = 2
+    data[6, 11] = 1.0
+    segm[6, 11] = 2
+    for k in range(4):
+        data[7 + k, 12 + k] = 6.0
+        segm[7 + k, 12 + k] = 2
+    data[10:13, 1:4] = 4.0
+    segm[10:13, 1:4] = 5
+    out.append(('diagonal-tail', data, segm))
+    # a full rectangle (no background pixel in its bounding box) with two peaks, next to a neighbour
+    data = np.zeros((10, 20))
+    segm = np.zeros((10, 20), dtype=int)
+    yy, xx = np.mgrid[0:8, 0:16]
+    data[1:9, 1:17] = 1.0 + 20 * np.exp(-((xx - 3.5) ** 2 + (yy - 3.5) ** 2) / 6.0) \
+        + 18 * np.exp(-((xx - 11.5) ** 2 + (yy - 3.5) ** 2) / 6.0)
+    segm[1:9, 1:17] = 1
+    data[3:7, 18:20] = 5.0
+    segm[3:7, 18:20] = 7
+    out.append(('full-rectangle', data, segm))
+    # an L-shaped thin parent with a peak at each end
+    data = np.zeros((12, 12))
+    segm = np.zeros((12, 12), dtype=int)
+    data[1:11, 1:3] = 2.0
+    data[9:11, 1:11] = 2.0
+    data[1:4, 1:3] = 9.0
+    data[9:11, 8:11] = 8.0
+    segm[data > 0] = 3
+    out.append(('thin-L', data, segm))
+    return out
+
+
+def handmade_stage(ctx):
+    SegmentationImage = _real()[0]
+    n = 0
+    for name, data, segm in handmade_scenes():
+        for npix in (2, 4, 6):
+            for conn in (8, 4):
+                if conn == 4 and name == 'diagonal-tail':
+                    continue       # that parent is only 8-connected: 4-connectivity is a documented error
+                for relabel in (False, True):
+                    for mode, nlevels in (('linear', 8), ('exponential', 16)):
+                        params = {'labels': None, 'npixels': npix, 'nlevels': nlevels, 'contrast': 0.001,
+                                  'mode': mode, 'connectivity': conn, 'relabel': relabel}
+                        seg = SegmentationImage(segm.copy())
+                        viol, nsplit, _ = eval_call(data, seg, params)
+                        n += 1
+                        spec = {'handmade': name}
+                        ctx.case(('handmade', name, _pkey(params)), nontrivial=nsplit > 0,
+                                 contract='deblend_sources/refinement+bookkeeping+frame')
+                        _report(ctx, viol, {'kind': 'handmade', 'scene': spec, 'params': params})
+    ctx.note(f'{n} calls on hand-made thin / diagonal / full-box scenes')
+
+
 def run(ctx):
     _CAP.clear()
+    handmade_stage(ctx)
     rng = ctx.rng
     nscenes = 40 if ctx.thorough else 10
     nrand = 400 if ctx.thorough else 100
@@ -491,6 +556,14 @@ def run(ctx):
 
 def replay(case):
     try:
+        if case['kind'] == 'handmade':
+            SegmentationImage = _real()[0]
+            for name, data, segm in handmade_scenes():
+                if name == case['scene']['handmade']:
+                    viol, _, _ = eval_call(data, SegmentationImage(segm.copy()), case['params'])
+                    keys = [k for k, _ in viol]
+                    return ('confirmed', viol[0][1], keys) if viol else ('spurious', 'no violation', [])
+            return 'error', 'unknown hand-made scene', []
         spec = case['scene']
         img = make_scene(spec)
         seg = make_seg(img, spec)
